@@ -287,6 +287,71 @@ class SimDisk:
             return io.BufferedWriter(raw, bs)
         return io.BufferedReader(raw, bs)
 
+    def os_open(self, path, flags):
+        """os.open on a simulated path: returns a fake descriptor bound to a raw handle."""
+        acc = flags & (os.O_RDONLY | os.O_WRONLY | os.O_RDWR)
+        exists = path in self.files
+        if path in self.dirs:
+            raise IsADirectoryError(errno.EISDIR, "Is a directory", path)
+        if exists and (flags & os.O_CREAT) and (flags & os.O_EXCL):
+            raise FileExistsError(errno.EEXIST, "File exists", path)
+        if not exists and not (flags & os.O_CREAT):
+            raise FileNotFoundError(errno.ENOENT, "No such file or directory", path)
+        if not exists and os.path.dirname(path) not in self.dirs:
+            raise FileNotFoundError(errno.ENOENT, "No such file or directory", path)
+        norm = "rb" if acc == os.O_RDONLY else "r+b"
+        if flags & os.O_APPEND:
+            norm = "a+b" if acc == os.O_RDWR else "ab"
+        hid = self.next_hid
+        self.next_hid += 1
+        raw = SimRaw(self, path, norm, hid, self.actor)
+        if acc == os.O_WRONLY:
+            raw._r = False
+            if not (flags & os.O_APPEND):
+                raw.mode = "wb" if (flags & os.O_TRUNC) or not exists else "r+b"
+        created = not exists
+        if created:
+            self.files[path] = bytearray()
+        old = len(self.files[path]) if exists else -1
+        if exists and (flags & os.O_TRUNC) and acc != os.O_RDONLY:
+            del self.files[path][:]
+            created = True
+        raw.data = self.files[path]
+        if created:
+            self.touch(raw.data)
+        self.open_handles[hid] = raw
+        self.log_event("open", raw, old, 1 if created else 0)
+        self.counts["os_open"] = self.counts.get("os_open", 0) + 1
+        return FD_BASE + hid
+
+    def raw_of(self, fd):
+        raw = self.open_handles.get(fd - FD_BASE)
+        if raw is None:
+            raise OSError(errno.EBADF, "Bad file descriptor")
+        return raw
+
+    def wrap_fd(self, fd, mode="r", buffering=-1):
+        raw = self.raw_of(fd)
+        if "b" not in mode:
+            raise HarnessError(f"text-mode wrapper on a simulated descriptor ({mode!r})")
+        if buffering == 0:
+            return raw
+        bs = self.bufsize if buffering in (-1, None) or buffering == 1 else buffering
+        if raw._r and raw._w:
+            return io.BufferedRandom(raw, bs)
+        if raw._w:
+            return io.BufferedWriter(raw, bs)
+        return io.BufferedReader(raw, bs)
+
+    def listdir(self, path):
+        if path not in self.dirs:
+            if path in self.files:
+                raise NotADirectoryError(errno.ENOTDIR, "Not a directory", path)
+            raise FileNotFoundError(errno.ENOENT, "No such file or directory", path)
+        pre = path.rstrip("/") + "/"
+        names = {p[len(pre):] for p in list(self.files) + list(self.dirs) if p.startswith(pre) and "/" not in p[len(pre):] and p != path}
+        return sorted(n for n in names if n)
+
     def stat(self, path):
         self.stat_calls += 1
         data = self.files.get(path)
@@ -322,9 +387,16 @@ class SimDisk:
 
 def _sim_open(file, mode="r", buffering=-1, encoding=None, errors=None, newline=None,
               closefd=True, opener=None):
+    if _DISK is not None and isinstance(file, int) and not isinstance(file, bool) and file >= FD_BASE:
+        return _DISK.wrap_fd(file, mode, buffering)  # os.fdopen / open(fd) on a simulated descriptor
     k = _key(file) if _DISK is not None and not isinstance(file, int) else None
     if k is None:
         return _real_io_open(file, mode, buffering, encoding, errors, newline, closefd, opener)
+    if opener is not None:
+        fd = opener(file, _flags_of(mode))
+        if isinstance(fd, int) and fd >= FD_BASE:
+            return _DISK.wrap_fd(fd, mode, buffering)
+        raise HarnessError("opener returned a real descriptor for a simulated path")
     return _DISK.open(k, mode, buffering)
 
 
@@ -542,6 +614,181 @@ def _sim_truncate(path, length):
         f.close()
 
 
+def _flags_of(mode):
+    m = set(mode.replace("b", "").replace("t", ""))
+    if "+" in m:
+        acc = os.O_RDWR
+    elif "r" in m:
+        acc = os.O_RDONLY
+    else:
+        acc = os.O_WRONLY
+    if "w" in m:
+        acc |= os.O_CREAT | os.O_TRUNC
+    if "x" in m:
+        acc |= os.O_CREAT | os.O_EXCL
+    if "a" in m:
+        acc |= os.O_CREAT | os.O_APPEND
+    return acc | getattr(os, "O_CLOEXEC", 0)
+
+
+_real_os_open, _real_os_close, _real_os_read, _real_os_write = os.open, os.close, os.read, os.write
+_real_ftruncate, _real_getcwd, _real_listdir, _real_scandir = os.ftruncate, os.getcwd, os.listdir, os.scandir
+_real_rmdir, _real_readlink = os.rmdir, os.readlink
+_real_pread, _real_pwrite = getattr(os, "pread", None), getattr(os, "pwrite", None)
+_real_listxattr = getattr(os, "listxattr", None)
+_real_fdopen = os.fdopen
+
+
+def _is_simfd(fd):
+    return _DISK is not None and isinstance(fd, int) and not isinstance(fd, bool) and fd >= FD_BASE
+
+
+def _sim_os_open(path, flags, mode=0o777, *, dir_fd=None):
+    k = _key(path) if _DISK is not None and dir_fd is None else None
+    if k is None:
+        return _real_os_open(path, flags, mode, dir_fd=dir_fd)
+    return _DISK.os_open(k, flags)
+
+
+def _sim_os_close(fd):
+    if _is_simfd(fd):
+        return _DISK.raw_of(fd).close()
+    return _real_os_close(fd)
+
+
+def _sim_os_read(fd, n):
+    if _is_simfd(fd):
+        raw = _DISK.raw_of(fd)
+        b = bytearray(n)
+        k = raw.readinto(b)
+        return bytes(b[:k])
+    return _real_os_read(fd, n)
+
+
+def _sim_os_write(fd, data):
+    if _is_simfd(fd):
+        return _DISK.raw_of(fd).write(data)
+    return _real_os_write(fd, data)
+
+
+def _sim_pread(fd, n, offset):
+    if _is_simfd(fd):
+        raw = _DISK.raw_of(fd)
+        if not raw._r:
+            raise OSError(errno.EBADF, "Bad file descriptor")
+        _DISK.n_reads += 1
+        return bytes(raw.data[offset:offset + n])
+    return _real_pread(fd, n, offset)
+
+
+def _sim_pwrite(fd, data, offset):
+    if _is_simfd(fd):
+        raw = _DISK.raw_of(fd)
+        save = raw.pos
+        try:
+            raw.pos = offset
+            return raw.write(data)
+        finally:
+            raw.pos = save
+    return _real_pwrite(fd, data, offset)
+
+
+def _sim_ftruncate(fd, length):
+    if _is_simfd(fd):
+        _DISK.raw_of(fd).truncate(length)
+        return None
+    return _real_ftruncate(fd, length)
+
+
+def _sim_fdopen(fd, mode="r", buffering=-1, *a, **kw):
+    if _is_simfd(fd):
+        return _DISK.wrap_fd(fd, mode, buffering)
+    return _real_fdopen(fd, mode, buffering, *a, **kw)
+
+
+def _sim_getcwd():
+    if _DISK is not None and _DISK.actor != "harness" and _DISK.relative:
+        return _DISK.cwd.rstrip("/")  # what the process's working directory is while library code runs
+    return _real_getcwd()
+
+
+def _sim_listdir(path="."):
+    k = _key(path) if _DISK is not None and not isinstance(path, int) else None
+    if k is None:
+        return _real_listdir(path)
+    return _DISK.listdir(k)
+
+
+class _SimDirEntry:
+    def __init__(self, d, name):
+        self.name, self.path = name, d.rstrip("/") + "/" + name
+
+    def is_dir(self, follow_symlinks=True):
+        return self.path in _DISK.dirs
+
+    def is_file(self, follow_symlinks=True):
+        return self.path in _DISK.files
+
+    def is_symlink(self):
+        return False
+
+    def stat(self, follow_symlinks=True):
+        return _DISK.stat(self.path)
+
+    def inode(self):
+        return self.stat().st_ino
+
+    def __fspath__(self):
+        return self.path
+
+
+class _SimScandir(list):
+    def __enter__(self):
+        return self
+
+    def __exit__(self, *a):
+        return False
+
+    def close(self):
+        pass
+
+
+def _sim_scandir(path="."):
+    k = _key(path) if _DISK is not None and not isinstance(path, int) else None
+    if k is None:
+        return _real_scandir(path)
+    return _SimScandir(_SimDirEntry(k, n) for n in _DISK.listdir(k))
+
+
+def _sim_rmdir(path, *a, **kw):
+    k = _key(path) if _DISK is not None else None
+    if k is None:
+        return _real_rmdir(path, *a, **kw)
+    if k not in _DISK.dirs:
+        raise FileNotFoundError(errno.ENOENT, "No such file or directory", k)
+    if _DISK.listdir(k):
+        raise OSError(errno.ENOTEMPTY, "Directory not empty", k)
+    _DISK.dirs.discard(k)
+
+
+def _sim_readlink(path, *a, **kw):
+    k = _key(path) if _DISK is not None else None
+    if k is None:
+        return _real_readlink(path, *a, **kw)
+    if k not in _DISK.files and k not in _DISK.dirs:
+        raise FileNotFoundError(errno.ENOENT, "No such file or directory", k)
+    raise OSError(errno.EINVAL, "Invalid argument", k)
+
+
+def _sim_listxattr(path=None, *a, **kw):
+    if _is_simfd(path):
+        return []
+    k = _key(path) if _DISK is not None and path is not None and not isinstance(path, int) else None
+    if k is None:
+        return _real_listxattr(path, *a, **kw)
+    return []
+
+
 def install(disk):
     """Route /simfs/ paths to `disk` (replaces any previously installed disk)."""
     global _DISK
@@ -566,6 +813,13 @@ def install(disk):
         os.lseek = _sim_lseek
         os.fsync = _sim_fsync
         _mmap_mod.mmap = _sim_mmap
+        os.open, os.close, os.read, os.write = _sim_os_open, _sim_os_close, _sim_os_read, _sim_os_write
+        os.ftruncate, os.getcwd, os.listdir, os.scandir = _sim_ftruncate, _sim_getcwd, _sim_listdir, _sim_scandir
+        os.rmdir, os.readlink, os.fdopen = _sim_rmdir, _sim_readlink, _sim_fdopen
+        if _real_pread is not None:
+            os.pread, os.pwrite = _sim_pread, _sim_pwrite
+        if _real_listxattr is not None:
+            os.listxattr = _sim_listxattr
         if _real_fdatasync is not None:
             os.fdatasync = _sim_fsync
         if _real_sendfile is not None:
@@ -594,6 +848,13 @@ def uninstall():
     os.lseek = _real_lseek
     os.fsync = _real_fsync
     _mmap_mod.mmap = _real_mmap
+    os.open, os.close, os.read, os.write = _real_os_open, _real_os_close, _real_os_read, _real_os_write
+    os.ftruncate, os.getcwd, os.listdir, os.scandir = _real_ftruncate, _real_getcwd, _real_listdir, _real_scandir
+    os.rmdir, os.readlink, os.fdopen = _real_rmdir, _real_readlink, _real_fdopen
+    if _real_pread is not None:
+        os.pread, os.pwrite = _real_pread, _real_pwrite
+    if _real_listxattr is not None:
+        os.listxattr = _real_listxattr
     if _real_fdatasync is not None:
         os.fdatasync = _real_fdatasync
     if _real_sendfile is not None:
